@@ -9,15 +9,17 @@ from .bmc import ThreadProg, System, BV, W
 
 
 def build(prog, npipes, cap, ready_cap, items_per_producer, consumer_calls, producer_modes=("send", "try_send"),
-          consumer_modes=("pop", "try_pop"), last_call_blocking=True, max_ops=None, pop_ops=None, batch=False):
+          consumer_modes=("pop", "try_pop"), last_call_blocking=True, max_ops=None, pop_ops=None, batch=False, filtered=False, pre_items=0):
     setup = rpq.setup(npipes, cap, ready_cap)
     trees, functions = {}, set()
     def tree(kind, *a):
         key = (kind,) + a
         if key not in trees:
             call = {"send": rpq.call_send, "try_send": rpq.call_try_send, "try_send_batch": rpq.call_try_send_batch,
+                    "try_send_batch_filtered": rpq.call_try_send_batch_filtered,
                     "pop": lambda: rpq.call_pop(), "try_pop": lambda: rpq.call_try_pop()}[kind](*a)
-            mo = {"send": 8, "try_send": 7, "try_send_batch": 6 + 2 * items_per_producer, "pop": pop_ops or (4 + 2 * (npipes * items_per_producer)), "try_pop": 8}[kind]
+            mo = {"send": 8, "try_send": 7, "try_send_batch": 6 + 2 * items_per_producer, "try_send_batch_filtered": 6 + 2 * items_per_producer,
+                  "pop": pop_ops or (4 + 2 * (npipes * (items_per_producer + pre_items))), "try_pop": 8}[kind]
             trees[key] = extract_call(prog, setup, call, kind, max_ops=mo, max_paths=3000)
             trees[key].name = kind
             functions.update(trees[key].functions)
@@ -27,8 +29,11 @@ def build(prog, npipes, cap, ready_cap, items_per_producer, consumer_calls, prod
         t = ThreadProg(f"prod{p}", "producer")
         if batch:
             # one batched enqueue of all items, or (solver's choice) the items one by one is a different scenario
+            for k in range(pre_items):
+                # the pipe already holds item(s) (and is on the ready list) when the batch arrives
+                t.add_call([tree("try_send", p, 10 * (p + 1) + 5 + k)])
             items = tuple(10 * (p + 1) + k for k in range(items_per_producer))
-            t.add_call([tree("try_send_batch", p, items)])
+            t.add_call([tree("try_send_batch_filtered" if filtered else "try_send_batch", p, items)])
         else:
             for k in range(items_per_producer):
                 item = 10 * (p + 1) + k
@@ -98,6 +103,15 @@ def run_scenario(prog, cfg, timeout_ms=900000, only=None):
         queued = z3.Or([z3.UGT(st["len"][ch], BV(0)) for _, _, ch in slots])
         lost.append(z3.And(prods_done, parked, queued))
     q("lost-wakeup", z3.Or(lost))
+    # C09: the awaits on the ready list inside send() (arming, after the item is committed) and pop() (re-arming,
+    # after the item was taken) never suspend - so they are not cancellation points. Requested explicitly by C09.
+    if only == "ready-list-send-suspends":
+        susp = []
+        for s in range(K + 1):
+            full = sysm.st[s]["len"][ready] == BV(sysm.cap[ready])
+            for ti in range(len(threads)):
+                susp.append(z3.And(sysm.at_op(ti, s, "ready_send_await"), full))
+        q("ready-list-send-suspends", z3.Or(susp))
     # counter discipline
     q("counter-underflow", sysm.st[K]["underflow"])
     inv = []
